@@ -135,7 +135,8 @@ func ghostTimerPrefix(kg uint16) []byte { return []byte{byte(kg >> 8), byte(kg),
 //@   requires 0 <= o.keyGroupRange.Start && o.keyGroupRange.Start <= o.keyGroupRange.End && o.keyGroupRange.End <= 65536
 //@   order Checkpoint after processEventBatch
 //@   order Checkpoint after registerBarrier
-//@   atcall Checkpoint: arg0 == barrier.CheckpointId && len(o.checkpoint.srIDs) == 0
+//@   atcall Checkpoint: arg0 == barrier.CheckpointId
+//@   atcall processEventBatch: o.checkpoint != nil && len(o.checkpoint.srIDs) == 0 && o.checkpoint.checkpointID == barrier.CheckpointId
 //@   atcall OperatorCheckpointComplete: arg1.CheckpointId == barrier.CheckpointId && arg1.OperatorId == o.id && arg1.DkvFileUri == cp.URI
 //@   atcall OperatorCheckpointComplete: int(arg1.KeyGroupRange.Start) == o.keyGroupRange.Start && int(arg1.KeyGroupRange.End) == o.keyGroupRange.End
 
@@ -143,5 +144,6 @@ func ghostTimerPrefix(kg uint16) []byte { return []byte{byte(kg >> 8), byte(kg),
 // state of the previous assembly survives.
 //@ func Operator.HandleDeploy
 //@   property C02 C15
+//@   nosafety
 //@   requires req != nil
 //@   ensures result == nil ==> o.checkpoint == nil
